@@ -51,10 +51,12 @@ def diagnose(tokens, entry, sut, err, exp):
     if sut is None and exp is not None:
         if any(t[3] == "spbad" for t in tokens) and "Unicode character has failed" in err:
             return "C06/surrogate-pair-low-byte"
-        if fs.type_flag_trigger(tokens) is not None and "syntax error" in err:
-            return "C06/type-name-flag-sticks"
+        # the OPEN finding is tried first: a text that is in the trigger sets of both stays a known finding
+        # (else the repaired defect's signature would be reported for a rejection the open one explains)
         if fs.path3_after_open_trigger(tokens) is not None and "syntax error" in err:
             return "C06/path-after-open-bracket"
+        if fs.type_flag_trigger(tokens) is not None and "syntax error" in err:
+            return "C06/type-name-flag-sticks"
     return None
 
 
